@@ -28,3 +28,56 @@ Example gen_compute_intensity_of_jumps_2d_runs :
   Qred (GenTieChain2d.compute_intensity_of_jumps_2d area GenTieChain.middle xs ys 2) = 14#1
   /\ Qred (Chain.intensity2 Grid.amid area xs ys 2) = 14#1.
 Proof. split; vm_compute; reflexivity. Qed.
+
+(* wave 8 (audit5a X-d) -- the 2-d intensity with h_left / h_right built from the TRANSLATED CoordinateND variants of
+   left_point / right_point and the tuple variant of middle (Gen/GenTieChain.v: left_point_nd2, right_point_nd2, middle_nd2), i.e.
+   what compute_intensity_of_jumps executes on a two-axis CTMCGrid.  It is syntactically the older definition (whose h_left /
+   h_right are the per-axis terms WRITTEN IN THE SPEC, `static_values`) once right_point's clamp len(axes[0]) agrees with the
+   second axis' own clamp at the origin -- in particular for axes of equal length, or an origin that is not the last point of either
+   axis.  gen_compute_intensity_of_jumps_2d_eq_model above is therefore a statement about the spec's reading; the two below are the
+   ones about the code. *)
+Definition clamp_agrees (xs ys : list Q) (o : Z) : Prop :=
+  (Z.min (py_len xs - 1) (o + 1) = Z.min (py_len ys - 1) (o + 1))%Z.
+
+Lemma clamp_agrees_same_length xs ys o : length xs = length ys -> clamp_agrees xs ys o.
+Proof. unfold clamp_agrees, py_len. intros ->. reflexivity. Qed.
+
+Lemma clamp_agrees_inner xs ys (o : nat) : (o + 1 < length xs)%nat -> (o + 1 < length ys)%nat -> clamp_agrees xs ys (Z.of_nat o).
+Proof. unfold clamp_agrees, py_len. lia. Qed.
+
+Theorem gen_compute_intensity_of_jumps_2d_nd_eq_spec_reading (mass2 : Q * Q -> Q * Q -> Q) xs ys o :
+  clamp_agrees xs ys o ->
+  GenTieChain2d.compute_intensity_of_jumps_2d_nd mass2 xs ys o
+  = GenTieChain2d.compute_intensity_of_jumps_2d mass2 GenTieChain.middle xs ys o.
+Proof.
+  intros H. unfold GenTieChain2d.compute_intensity_of_jumps_2d_nd, GenTieChain2d.compute_intensity_of_jumps_2d.
+  rewrite !gen_middle_nd2_eq_per_axis, !gen_left_point_nd2_eq_per_axis, !(gen_right_point_nd2_eq_per_axis xs ys o o H).
+  reflexivity.
+Qed.
+
+Theorem gen_compute_intensity_of_jumps_2d_nd_eq_model (mass2 : Q * Q -> Q * Q -> Q) xs ys (o : nat) :
+  clamp_agrees xs ys (Z.of_nat o) ->
+  GenTieChain2d.compute_intensity_of_jumps_2d_nd mass2 xs ys (Z.of_nat o) == Chain.intensity2 Grid.amid mass2 xs ys o.
+Proof.
+  intros H. rewrite (gen_compute_intensity_of_jumps_2d_nd_eq_spec_reading mass2 xs ys _ H).
+  apply gen_compute_intensity_of_jumps_2d_eq_model.
+Qed.
+
+(* the hypothesis is needed: first axis shorter, origin on its last point -- the code's h_right on the second axis is 0, the
+   right-hand blocks of that axis start AT the origin, and the total differs from the hand model's *)
+Example gen_compute_intensity_of_jumps_2d_nd_clamp_refuted :
+  let xs := [-(2#1); -(1#1); 0] in
+  let ys := [-(2#1); -(1#1); 0; 1#1; 2#1] in
+  let area := fun (a b : Q * Q) => (fst b - fst a) * (snd b - snd a) in
+  ~ clamp_agrees xs ys 2
+  /\ Qred (GenTieChain2d.compute_intensity_of_jumps_2d_nd area xs ys 2) = 31#4
+  /\ Qred (Chain.intensity2 Grid.amid area xs ys 2) = 15#2.
+Proof. split; [vm_compute; discriminate|split; vm_compute; reflexivity]. Qed.
+
+(* non-vacuity of the agreeing case (the grids CTMCGrid builds: equal lengths, origin in the middle) *)
+Example gen_compute_intensity_of_jumps_2d_nd_runs :
+  let xs := [-(2#1); -(1#1); 0; 1#1; 3#1] in
+  let ys := [-(1#1); -(1#1); 0; 1#1; 2#1] in
+  let area := fun (a b : Q * Q) => (fst b - fst a) * (snd b - snd a) in
+  clamp_agrees xs ys 2 /\ Qred (GenTieChain2d.compute_intensity_of_jumps_2d_nd area xs ys 2) = 14#1.
+Proof. split; vm_compute; reflexivity. Qed.
